@@ -16,13 +16,16 @@ from vlib import c18_model as M
 ID = 'C18'
 LEVEL = 'exploration'
 RULE = ('hypothesis draws form in {decorator, context manager, generator/coroutine function, Flask stub, Bottle stub} x '
-        'options (retry 0-3, allowed_exceptions / retry_exceptions as class lists or callables over the hierarchy '
+        'options (retry 0-3, allowed_exceptions / retry_exceptions as class lists or callables -- the allowed '
+        'predicate may itself raise for some classes -- over the hierarchy '
         'A<-B<-C, D, E(D,A), K(BaseException), TransactionError<-TransactionIntegrityError, Exception; bottle adds '
         'HTTPResponse<-HTTPError and a subclass of each; strict/immediate/serializable/optimistic) x 1..retry+1 attempt '
-        'scripts of steps set/del/flush/commit/rollback/raise X/doomed duplicate insert/yield(with caught classes)/'
+        'scripts of steps set/del/flush/commit/rollback/raise X/doomed duplicate insert/yield(with caught classes, '
+        'GeneratorExit and BaseException included, after which the body goes on)/'
         'nested session (decorator or context manager with own options, depth <= 3, optionally catching the inner '
-        'exception) x for generators a consumer script of next/send/throw X/close. One case = one such script run on a '
-        'fresh SQLite file, followed by one empty db_session (which must not make anything durable). Non-trivial = at '
+        'exception) x for generators a consumer script of next/send/throw X/close/abandon (drop the last reference). '
+        'One case = one such script run on a fresh SQLite file, followed by one more db_session that is empty or '
+        'writes 1-2 rows and must make durable exactly its own writes. Non-trivial = at '
         'some commit-or-rollback decision (normal end, exception leaving the outermost body, suspension) uncommitted '
         'changes are pending, or the body is re-run; distinct by '
         '(form, options, executed step trace, consumer actions used). Refusals (TypeError for retry on a context '
@@ -40,7 +43,9 @@ CLASS_FLOORS = {'form:decorator': 0.15, 'form:context': 0.10, 'form:generator': 
                 'retried': 0.03, 'depth>1': 0.10, 'allowed_through_superclass:list': 0.001,
                 'allowed_through_superclass:callable': 0.001, 'retried_through_superclass:list': 0.001,
                 'raise:after_write': 0.05, 'raise:after_flush': 0.02, 'raise:after_commit': 0.01,
-                'raise:before_write': 0.03}
+                'raise:before_write': 0.03, 'predicate_error:decisive': 0.002,
+                'generator_exit_caught_by_body:decisive': 0.004, 'consumer:close': 0.01, 'consumer:abandon': 0.005,
+                'following_session_writes': 0.2}
 
 BUDGET = {   # examples per shard: (quick, thorough)
     'decorator': (280, 1000),
@@ -60,11 +65,18 @@ def _strategies():
     ids = st.integers(1, 3)
     vals = st.integers(0, 3)
     flag = st.sampled_from([False, False, True])
+    spec_classes = st.lists(st.sampled_from(M.LIST_CLASSES + ['A', 'D', 'Exception', 'TE']), max_size=3, unique=True)
     excspec = st.one_of(
         st.none(),
-        st.fixed_dictionaries({'kind': st.sampled_from(['list', 'callable']),
-                               'classes': st.lists(st.sampled_from(M.LIST_CLASSES + ['A', 'D', 'Exception', 'TE']),
-                                                  max_size=3, unique=True)}))
+        st.fixed_dictionaries({'kind': st.sampled_from(['list', 'callable']), 'classes': spec_classes}))
+    # allowed_exceptions predicates may be badly written: they raise for some exception classes (R10)
+    raises_for = st.one_of(st.just([]),
+                           st.lists(st.sampled_from(['A', 'A', 'B', 'D', 'E', 'K', 'Exception', 'Exception']), min_size=1,
+                                    max_size=2, unique=True))
+    allowed_spec = st.one_of(
+        st.none(),
+        st.fixed_dictionaries({'kind': st.just('list'), 'classes': spec_classes}),
+        st.fixed_dictionaries({'kind': st.just('callable'), 'classes': spec_classes, 'raises_for': raises_for}))
     catch = st.lists(st.sampled_from(M.CATCH_CLASSES), max_size=2, unique=True)
     inner_form = st.sampled_from(['decorator', 'context'])
 
@@ -76,7 +88,7 @@ def _strategies():
         else:
             retry = st.sampled_from([0] * 24 + [1])
         serializable = st.sampled_from([False] * 24 + [True]) if form == 'generator' else flag
-        return st.fixed_dictionaries({'retry': retry, 'allowed': excspec, 'retry_exc': excspec, 'strict': flag,
+        return st.fixed_dictionaries({'retry': retry, 'allowed': allowed_spec, 'retry_exc': excspec, 'strict': flag,
                                       'immediate': flag, 'serializable': serializable,
                                       'optimistic': st.sampled_from([True, True, False])})
 
@@ -84,6 +96,11 @@ def _strategies():
                    for form in ('decorator', 'context', 'generator') for inner in (False, True))
 
     catch_biased = st.lists(st.sampled_from(['A', 'A', 'B', 'C', 'D', 'E']), max_size=2, unique=True)
+    # around a yield the body may also intercept GeneratorExit / everything (R11)
+    catch_yield = st.lists(st.sampled_from(['A', 'A', 'B', 'D', 'E', 'GeneratorExit', 'GeneratorExit', 'GeneratorExit',
+                                            'BaseException', 'BaseException']), max_size=2, unique=True)
+    after_st = st.one_of(st.just([]), st.lists(st.tuples(st.just('set'), st.integers(1, 4), vals).map(list),
+                                               min_size=1, max_size=2))
     coin = st.integers(0, 9)
     raise_index = st.integers(0, 59)       # resolved against a per-case class pool (see _resolve)
 
@@ -98,9 +115,11 @@ def _strategies():
             if depth < 3:
                 punct += ['nest'] * 3
             if form == 'generator' and depth == 1:
-                punct += ['yield'] * 5
+                punct += ['yield'] * 10
             punct_st = st.sampled_from(punct)
             n_segments = st.integers(1, 3) if depth == 1 else st.integers(0, 2)
+            if form == 'generator' and depth == 1:
+                n_segments = st.integers(1, 4)
             n_writes = st.integers(0, 2)
             ending_st = st.sampled_from(['finish'] * 9 + ['raise'] * 9 + ['dup'] * 2 if depth == 1
                                         else ['finish'] * 6 + ['raise'] * 4)
@@ -117,9 +136,16 @@ def _strategies():
                             steps.append(['del', draw(ids)])
                     kind = draw(punct_st)
                     if kind == 'yield':
-                        if draw(coin) < 7:
+                        if draw(coin) < 8:
                             steps.append(['commit'])          # a generator has to commit before it suspends (R7)
-                        steps.append(['yield', draw(catch_biased)])
+                        caught = draw(catch_yield)
+                        steps.append(['yield', caught])
+                        if ('GeneratorExit' in caught or 'BaseException' in caught) and draw(coin) < 7:
+                            # a body that intercepts being closed typically "cleans up" by writing something (R11)
+                            for _ in range(1 + draw(coin) % 2):
+                                steps.append(['set', draw(ids), draw(vals)])
+                            if draw(coin) < 5:
+                                return steps
                     elif kind == 'nest':
                         iform = draw(inner_form)
                         steps.append(['nest', {'form': iform, 'opts': draw(opts_st[(iform, True)])},
@@ -146,8 +172,9 @@ def _strategies():
         initial = st.dictionaries(ids, vals, max_size=3)
         action = st.one_of(st.just(['next']), st.just(['next']), st.tuples(st.just('send'), vals).map(list),
                            st.tuples(st.just('throw'), raise_index).map(list),
-                           st.tuples(st.just('throw'), raise_index).map(list), st.just(['close']))
-        drive = st.lists(action, max_size=4)
+                           st.tuples(st.just('throw'), raise_index).map(list), st.just(['close']), st.just(['close']),
+                           st.just(['close']), st.just(['abandon']), st.just(['abandon']))
+        drive = st.lists(action, min_size=1, max_size=4)
         n_attempts_st = dict((r, st.integers(1, r + 1)) for r in range(4))
         flags = st.booleans()
 
@@ -169,6 +196,7 @@ def _strategies():
             if form == 'generator':
                 case['async'] = draw(flags)
                 case['drive'] = draw(drive)
+            case['after'] = draw(after_st)
             return _resolve(case)
         return case_st()
 
@@ -188,6 +216,7 @@ def _resolve(case):
     for key in ('allowed', 'retry_exc'):
         if opts.get(key):
             named += opts[key]['classes']
+            named += opts[key].get('raises_for') or []
     if form == 'decorator' and opts.get('retry') and not opts.get('retry_exc'):
         named += ['TE']
     for n in named:
@@ -307,6 +336,14 @@ def _classes(case, exp):
         out.append('retried_through_superclass:' + opts['retry_exc']['kind'])
     if exp['decisive']:
         out.append('decisive:' + case['form'])
+    if exp.get('close_caught'):
+        out.append('generator_exit_caught_by_body' + (':decisive' if exp['decisive'] else ''))
+    if exp.get('closing'):
+        out.append('consumer:' + exp['closing'])
+    if exp['outcome'] == 'predicate_error' and exp['decisive']:
+        out.append('predicate_error:decisive')
+    if case.get('after'):
+        out.append('following_session_writes')
     return out
 
 
@@ -317,14 +354,16 @@ def _evaluate(ctx, case):
         ctx.inconclusive += 1
         return
     key = {'form': case['form'], 'opts': case.get('opts'), 'trace': exp.get('trace'),
-           'drive': (case.get('drive') or [])[:exp.get('drive_used', 0)], 'async': case.get('async')}
+           'drive': (case.get('drive') or [])[:exp.get('drive_used', 0)], 'async': case.get('async'),
+           'after': case.get('after') or []}
     if exp['reject'] or exp.get('ambiguous_te'):
         ctx.rejected += 1
     if obs.leak:
         ctx.count('session_state_left_behind')
     ctx.case(key=key, nontrivial=bool(exp['decisive']), classes=_classes(case, exp),
              sample={'form': case['form'], 'opts': case.get('opts'), 'attempts': case['attempts'],
-                     'drive': case.get('drive'), 'outcome': exp['outcome'], 'executions': obs.executions,
+                     'drive': case.get('drive'), 'after': case.get('after'), 'outcome': exp['outcome'],
+                     'executions': obs.executions,
                      'exception': H.exc_name(H.env(), obs.exc), 'final_rows': obs.final})
     if verdict == 'violation':
         ctx.fail(case, msg)
@@ -384,7 +423,8 @@ MANIFEST = {
             'integrations over stub packages; retry, allowed/retry exception lists and callables, nesting to depth 3, '
             'strict/immediate/serializable/optimistic) run on file-backed SQLite and compared with an independent '
             'reference function for committed rows (read through a separate sqlite3 connection), number of body '
-            'executions and the propagated exception. Sampled, not exhaustive.',
+            'executions and the propagated exception; a following session (empty or writing) must commit exactly its '
+            'own work. Sampled, not exhaustive.',
     'note': 'Flask and Bottle are stubs implementing only the documented request life-cycle; "allowed exception => commit" '
             'is not asserted for generator sessions (undocumented); the should_retry attribute set by providers on lost '
             'connections, ddl=True and sql_debug are not generated; single thread, SQLite only.',
